@@ -617,6 +617,15 @@ class Interp:
             if 0 <= iv[1] < len(o.items):
                 return o.items[iv[1]]
             raise Unknown("index out of bounds (panic)")
+        if isinstance(o, Lst) and isinstance(iv, St) and (iv.adt or "").startswith("core::ops::range::Range"):
+            n = len(o.items)
+            lo = iv.f.get("start", I(0))
+            hi = iv.f.get("end", I(n))
+            if lo[0] == "i" and hi[0] == "i":
+                h = hi[1] + (1 if "Inclusive" in iv.adt else 0)
+                if 0 <= lo[1] <= h <= n:
+                    return Lst(o.items[lo[1]:h])
+                raise Unknown("slice out of bounds (panic)")
         if isinstance(o, MapV):
             i = o.find(iv)
             if i >= 0:
@@ -658,6 +667,10 @@ class Interp:
                 if dk.startswith("Ctor") and "Const" in dk:
                     return St(r.get("adt"), {})
                 return FnRef(r)
+            if dk in ("Const", "AssocConst", "Static") or dk.startswith("Static"):
+                cb = self.c.by_key.get(r.get("key"))
+                if cb is not None and cb.get("body") is not None and not cb.get("params"):
+                    return self.ev(cb["body"], {})          # initializer of a const of the crate the front end did not flatten
             return sym(r.get("path") or "?")
         if k == "lit":
             lit = n.get("lit") or {}
@@ -902,8 +915,6 @@ class Interp:
     def format_block(self, n, env):
         """`{ let args = (&a, &b); let args = [Argument::new_display(args.0), ..]; Arguments::new(template, &args) }`
         -> FArgs through the FormatArgs template recorded by the front end (pieces + argument order)."""
-        if not has_mac(n, ("$crate::format_args", "format_args")):
-            return None
         stmts = n["stmts"]
         tail = H.peel(n.get("tail") or {}, refs=False) if "tail" in n else None
         if not (len(stmts) == 2 and all(s.get("k") == "let" and "init" in s for s in stmts) and tail and tail.get("k") == "call"):
@@ -986,6 +997,8 @@ class Interp:
                 except Unknown:
                     return ERR()
             args = [self.ev(a, env) for a in n["args"]]
+            if (c.get("adt") or "").startswith("alloc::borrow::Cow") and len(args) == 1:
+                return args[0]                            # Cow<str> derefs to the str it holds
             if name:
                 return V(name, *args)
             return St(c.get("adt"), {str(i): a for i, a in enumerate(args)})
@@ -1018,6 +1031,8 @@ class Interp:
         dk = c.get("dk", "")
         if dk.startswith("Ctor"):
             a = argv()
+            if (c.get("adt") or "").startswith("alloc::borrow::Cow") and len(a) == 1:
+                return a[0]
             if c.get("variant"):
                 return V(c["variant"], *a)
             return St(c.get("adt"), {str(i): x for i, x in enumerate(a)})
@@ -1030,6 +1045,13 @@ class Interp:
         name = (n["name"] if n is not None and n.get("k") == "mcall" else None) or norm_path(c.get("path")).rsplit("::", 1)[-1]
         path = norm_path(c.get("path"))
         a = argv()
+        if c.get("trait") and a and isinstance(a[0], St) and a[0].adt and (c.get("trait") or "").split("::")[0] == self.c.name:
+            # trait method of the crate called through a type parameter: the impl for the value's type
+            adt = a[0].adt.split("<")[0]
+            cands = [b for b in self.c.bodies if b.get("name") == name and c["trait"] in (b.get("impl_trait") or "")
+                     and (b.get("impl_ty") or "").split("<")[0] == adt and b.get("body") is not None]
+            if len(cands) == 1:
+                return self.call_body(cands[0], a)
         place = None
         if n is not None:
             pn = recv_node if recv_node is not None else (n["args"][0] if n.get("args") else None)
@@ -1192,6 +1214,8 @@ class Interp:
                 return FArgs([r0[1]])
             if isinstance(r0, Lst):
                 return FArgs([x[1] for x in r0.items])
+        if path.endswith("RangeInclusive::new") and len(a) == 2:
+            return St("core::ops::range::RangeInclusive", {"start": a[0], "end": a[1]})
         if path.endswith(("iter::empty",)):
             return ListIt([])
         if path.endswith(("iter::once",)):
